@@ -9,7 +9,7 @@ WATCHDOG = {"quick": 900, "thorough": 3600}
 CASES = {"quick": 400, "thorough": 4000}
 FLOORS = {
     "quick": {"distinct_nontrivial": 500, "segments_checked": 1500, "invalid_args_checked": 300,
-              "outlier_cases": 100, "cases[n=1]": 3},
+              "outlier_cases": 100, "cases[n=1]": 3, "cases[seed=0]": 10},
     "thorough": {"distinct_nontrivial": 10000, "segments_checked": 30000},
 }
 ANCHORS = [
@@ -67,6 +67,8 @@ def make_recipe(rng, tier):
         n = 1
     p = int(rng.integers(1, 6))
     seed = int(rng.integers(0, 10 ** 6))
+    if rng.random() < 0.2:
+        seed = int(rng.choice([0, 1, 2, 2 ** 31 - 1, 2 ** 32 - 1]))  # boundary seeds (0 is falsy)
     r = {"gen": gen, "n": n, "p": p, "seed": seed}
     if gen == "changing":
         k = int(rng.integers(0, min(5, n)))
@@ -124,6 +126,8 @@ def exec_case(ctx, r):
     ctx.stat(f"gen[{gen}]")
     if n == 1:
         ctx.stat("cases[n=1]")
+    if seed == 0:
+        ctx.stat("cases[seed=0]")
     sub = f"generate-{gen}"
 
     def call(f, *a, **k):
